@@ -16,6 +16,7 @@ var Registry = map[string]func(tier string){
 	"C13": C13,
 	"C14": C14,
 	"C15": C15,
+	"C16": C16,
 	"C20": C20,
 }
 
